@@ -46,6 +46,9 @@ func checkC13(r *Run) propMeta {
 		names[k] = true
 	}
 	for _, m := range sortedKeys(names) {
+		if !ast.IsExported(m) {
+			continue // private helpers are read as part of the methods that call them
+		}
 		construct := "bitmap32/bitmap64." + m
 		switch {
 		case a[m] == "" || b[m] == "":
@@ -135,32 +138,50 @@ func checkBitmapType(r *Run, p *packages.Package, tname string) map[string]strin
 		recv := recvObj(p, fd)
 		var shape []string
 		// ---- R1: closures passed to the receiver's own Each / loops over the own iterator
-		var selfIterBodies []ast.Node
-		ast.Inspect(fd.Body, func(n ast.Node) bool {
-			switch x := n.(type) {
-			case *ast.CallExpr:
-				if sel, ok := x.Fun.(*ast.SelectorExpr); ok && (sel.Sel.Name == "Each") {
-					if id, ok := ast.Unparen(sel.X).(*ast.Ident); ok && info.Uses[id] == recv {
-						for _, a := range x.Args {
-							if fl, ok := a.(*ast.FuncLit); ok {
-								selfIterBodies = append(selfIterBodies, fl.Body)
+		// (an unexported helper method called on the receiver is read as part of the method that calls it)
+		type selfIter struct {
+			body  ast.Node
+			owner *ast.FuncDecl
+		}
+		var selfIterBodies []selfIter
+		var collect func(owner *ast.FuncDecl, depth int)
+		collect = func(owner *ast.FuncDecl, depth int) {
+			orecv := recvObj(p, owner)
+			ast.Inspect(owner.Body, func(n ast.Node) bool {
+				switch x := n.(type) {
+				case *ast.CallExpr:
+					if sel, ok := x.Fun.(*ast.SelectorExpr); ok {
+						if id, ok := ast.Unparen(sel.X).(*ast.Ident); ok && info.Uses[id] == orecv {
+							if sel.Sel.Name == "Each" {
+								for _, a := range x.Args {
+									if fl, ok := a.(*ast.FuncLit); ok {
+										selfIterBodies = append(selfIterBodies, selfIter{fl.Body, owner})
+									}
+								}
+							} else if hd := methods[sel.Sel.Name]; hd != nil && hd != owner && !ast.IsExported(sel.Sel.Name) && depth < 2 {
+								collect(hd, depth+1)
+							}
+						}
+					}
+				case *ast.ForStmt:
+					// for itr := s.bitmap.Iterator(); itr.HasNext(); { ... }
+					if as, ok := x.Init.(*ast.AssignStmt); ok && len(as.Rhs) == 1 {
+						if call, ok := as.Rhs[0].(*ast.CallExpr); ok {
+							if sel, ok := call.Fun.(*ast.SelectorExpr); ok && strings.Contains(sel.Sel.Name, "Iterator") && onOwnBitmap(owner, sel.X) {
+								selfIterBodies = append(selfIterBodies, selfIter{x.Body, owner})
 							}
 						}
 					}
 				}
-			case *ast.ForStmt:
-				// for itr := s.bitmap.Iterator(); itr.HasNext(); { ... }
-				if as, ok := x.Init.(*ast.AssignStmt); ok && len(as.Rhs) == 1 {
-					if call, ok := as.Rhs[0].(*ast.CallExpr); ok {
-						if sel, ok := call.Fun.(*ast.SelectorExpr); ok && strings.Contains(sel.Sel.Name, "Iterator") && onOwnBitmap(fd, sel.X) {
-							selfIterBodies = append(selfIterBodies, x.Body)
-						}
-					}
-				}
-			}
-			return true
-		})
-		for i, body := range selfIterBodies {
+				return true
+			})
+		}
+		if ast.IsExported(name) {
+			collect(fd, 0)
+		}
+		for i, si := range selfIterBodies {
+			body := si.body
+			orecv := recvObj(p, si.owner)
 			bad := ""
 			var badPos token.Pos
 			ast.Inspect(body, func(n ast.Node) bool {
@@ -172,10 +193,10 @@ func checkBitmapType(r *Run, p *packages.Package, tname string) map[string]strin
 				if !ok {
 					return true
 				}
-				if id, ok := ast.Unparen(sel.X).(*ast.Ident); ok && info.Uses[id] == recv && mutating[sel.Sel.Name] {
+				if id, ok := ast.Unparen(sel.X).(*ast.Ident); ok && info.Uses[id] == orecv && mutating[sel.Sel.Name] {
 					bad, badPos = "s."+sel.Sel.Name, call.Pos()
 				}
-				if roaringMutators[sel.Sel.Name] && onOwnBitmap(fd, sel.X) {
+				if roaringMutators[sel.Sel.Name] && onOwnBitmap(si.owner, sel.X) {
 					bad, badPos = "s.bitmap."+sel.Sel.Name, call.Pos()
 				}
 				return true
@@ -188,15 +209,9 @@ func checkBitmapType(r *Run, p *packages.Package, tname string) map[string]strin
 			}
 		}
 		// ---- R2: native op and fallback predicate
-		var ts *ast.TypeSwitchStmt
-		ast.Inspect(fd.Body, func(n ast.Node) bool {
-			if t, ok := n.(*ast.TypeSwitchStmt); ok && ts == nil {
-				ts = t
-			}
-			return true
-		})
+		branches, exclusive, hasDispatch := typeBranchesOf(info, fd.Body.List)
 		want, hasWant := nativeOp[name]
-		if ts == nil {
+		if !hasDispatch {
 			// simple delegation: must call the expected native op on the own bitmap
 			if hasWant {
 				got := ""
@@ -217,20 +232,15 @@ func checkBitmapType(r *Run, p *packages.Package, tname string) map[string]strin
 				shape = append(shape, "native:"+got)
 			}
 		} else {
-			for _, c := range ts.Body.List {
-				cc := c.(*ast.CaseClause)
-				if len(cc.List) != 1 {
-					continue
-				}
-				tv, ok := info.Types[cc.List[0]]
-				if !ok {
-					continue
-				}
-				caseName := namedName(tv.Type)
+			if !exclusive {
+				r.Fail("C13-R2-native-op", tname+"."+name+":native", fd.Pos(), "the same-type branch of %s does not leave, so the element-wise fallback runs as well for an operand of the same type: the operation is applied twice", name)
+			}
+			for _, br := range branches {
+				caseName := namedName(br.Type)
 				if caseName == tname {
 					// native branch: s.bitmap.<want>(typed.bitmap)
 					got, argOK := "", false
-					for _, st := range cc.Body {
+					for _, st := range br.Body {
 						ast.Inspect(st, func(n ast.Node) bool {
 							if call, ok := n.(*ast.CallExpr); ok {
 								if sel, ok := call.Fun.(*ast.SelectorExpr); ok && onOwnBitmap(fd, sel.X) {
@@ -238,7 +248,7 @@ func checkBitmapType(r *Run, p *packages.Package, tname string) map[string]strin
 									if len(call.Args) == 1 {
 										if as, ok := ast.Unparen(call.Args[0]).(*ast.SelectorExpr); ok {
 											if s := info.Selections[as]; s != nil && s.Obj() == bitmapField {
-												if id, ok := ast.Unparen(as.X).(*ast.Ident); ok && info.Uses[id] == info.Implicits[cc] {
+												if id, ok := ast.Unparen(as.X).(*ast.Ident); ok && info.Uses[id] == br.Operand {
 													argOK = true
 												}
 											}
@@ -250,18 +260,20 @@ func checkBitmapType(r *Run, p *packages.Package, tname string) map[string]strin
 						})
 					}
 					construct := tname + "." + name + ":native"
-					if got == want && argOK {
-						r.Pass("C13-R2-native-op", construct, cc.Pos(), "bitmap.%s(operand.bitmap)", got)
+					if !exclusive {
+						// already reported above
+					} else if got == want && argOK {
+						r.Pass("C13-R2-native-op", construct, br.Pos, "bitmap.%s(operand.bitmap)", got)
 					} else {
-						r.Fail("C13-R2-native-op", construct, cc.Pos(), "the same-type branch of %s must call bitmap.%s on the operand's bitmap but calls bitmap.%s (operand bitmap passed: %v)", name, want, got, argOK)
+						r.Fail("C13-R2-native-op", construct, br.Pos, "the same-type branch of %s must call bitmap.%s on the operand's bitmap but calls bitmap.%s (operand bitmap passed: %v)", name, want, got, argOK)
 					}
 					shape = append(shape, "native:"+got)
 				} else if strings.HasPrefix(caseName, "Duplex") {
-					kind, detail, pos := fallbackKind(p, fd, cc, recv)
+					kind, detail, pos := fallbackKind(p, methods, br, recv)
 					construct := tname + "." + name + ":fallback"
 					expected := map[string]string{"And": "remove-if-not-contained", "AndNot": "remove-if-contained", "Or": "add-each-of-operand", "Xor": "copy-then-native-xor"}[name]
 					if kind == expected {
-						r.Pass("C13-R2-fallback", construct, cc.Pos(), "%s (%s)", kind, detail)
+						r.Pass("C13-R2-fallback", construct, br.Pos, "%s (%s)", kind, detail)
 					} else {
 						r.Fail("C13-R2-fallback", construct, pos, "the element-wise fallback of %s must be %s but is %s (%s)", name, expected, kind, detail)
 					}
@@ -293,80 +305,164 @@ func checkBitmapType(r *Run, p *packages.Package, tname string) map[string]strin
 	return shapes
 }
 
-// fallbackKind classifies the element-wise fallback branch.
-func fallbackKind(p *packages.Package, fd *ast.FuncDecl, cc *ast.CaseClause, recv types.Object) (kind, detail string, pos token.Pos) {
+// fallbackKind classifies the element-wise fallback branch. Helper methods of the same type that the branch calls on
+// the receiver with the operand as an argument are read as part of the branch (the operand and constant boolean
+// arguments are followed into their parameters).
+func fallbackKind(p *packages.Package, methods map[string]*ast.FuncDecl, br typeBranch, recv types.Object) (kind, detail string, pos token.Pos) {
 	info := p.TypesInfo
-	operand := info.Implicits[cc]
-	pos = cc.Pos()
+	pos = br.Pos
 	// find `operand.Contains(x)` occurrences and their polarity inside an if condition guarding a removal/collection
 	var polarity []string
 	addsEach, nativeXor := false, false
-	for _, st := range cc.Body {
-		ast.Inspect(st, func(n ast.Node) bool {
-			switch x := n.(type) {
-			case *ast.IfStmt:
-				neg := false
-				cond := ast.Unparen(x.Cond)
-				if u, ok := cond.(*ast.UnaryExpr); ok && u.Op == token.NOT {
-					neg = true
-					cond = ast.Unparen(u.X)
+	var scan func(stmts []ast.Stmt, operand, recv types.Object, consts map[types.Object]bool, depth int, top bool)
+	scan = func(stmts []ast.Stmt, operand, recv types.Object, consts map[types.Object]bool, depth int, top bool) {
+		// containsTest: is e `operand.Contains(v)`?
+		containsTest := func(e ast.Expr) bool {
+			call, ok := ast.Unparen(e).(*ast.CallExpr)
+			if !ok {
+				return false
+			}
+			sel, ok := call.Fun.(*ast.SelectorExpr)
+			if !ok || sel.Sel.Name != "Contains" {
+				return false
+			}
+			id, ok := ast.Unparen(sel.X).(*ast.Ident)
+			return ok && info.Uses[id] == operand
+		}
+		boolConst := func(e ast.Expr) (bool, bool) {
+			if tv, ok := info.Types[e]; ok && tv.Value != nil {
+				switch tv.Value.ExactString() {
+				case "true":
+					return true, true
+				case "false":
+					return false, true
 				}
-				if call, ok := cond.(*ast.CallExpr); ok {
-					if sel, ok := call.Fun.(*ast.SelectorExpr); ok && sel.Sel.Name == "Contains" {
-						if id, ok := ast.Unparen(sel.X).(*ast.Ident); ok && info.Uses[id] == operand {
-							// body must remove (directly or by collecting for removal)
-							removes := false
-							ast.Inspect(x.Body, func(m ast.Node) bool {
-								if c2, ok := m.(*ast.CallExpr); ok {
-									if s2, ok := c2.Fun.(*ast.SelectorExpr); ok && (s2.Sel.Name == "Remove" || s2.Sel.Name == "Add" || s2.Sel.Name == "AddMany") {
-										removes = true
-									}
-									if id2, ok := c2.Fun.(*ast.Ident); ok && id2.Name == "append" {
-										removes = true
-									}
+			}
+			if id, ok := ast.Unparen(e).(*ast.Ident); ok {
+				if v, ok := consts[info.Uses[id]]; ok {
+					return v, true
+				}
+			}
+			return false, false
+		}
+		// membership(cond): +1 the condition holds exactly when the operand contains the value, -1 exactly when it does not
+		var membership func(e ast.Expr) int
+		membership = func(e ast.Expr) int {
+			e = ast.Unparen(e)
+			if containsTest(e) {
+				return 1
+			}
+			switch x := e.(type) {
+			case *ast.UnaryExpr:
+				if x.Op == token.NOT {
+					return -membership(x.X)
+				}
+			case *ast.BinaryExpr:
+				if x.Op == token.EQL || x.Op == token.NEQ {
+					for _, pair := range [][2]ast.Expr{{x.X, x.Y}, {x.Y, x.X}} {
+						if m := membership(pair[0]); m != 0 {
+							if b, ok := boolConst(pair[1]); ok {
+								if b != (x.Op == token.EQL) {
+									m = -m
 								}
-								return true
-							})
-							if removes {
-								if neg {
-									polarity = append(polarity, "remove-if-not-contained")
-								} else {
-									polarity = append(polarity, "remove-if-contained")
+								return m
+							}
+						}
+					}
+				}
+			}
+			return 0
+		}
+		for _, st := range stmts {
+			ast.Inspect(st, func(n ast.Node) bool {
+				switch x := n.(type) {
+				case *ast.IfStmt:
+					if m := membership(x.Cond); m != 0 {
+						// body must remove (directly or by collecting for removal)
+						removes := false
+						ast.Inspect(x.Body, func(m ast.Node) bool {
+							if c2, ok := m.(*ast.CallExpr); ok {
+								if s2, ok := c2.Fun.(*ast.SelectorExpr); ok && (s2.Sel.Name == "Remove" || s2.Sel.Name == "Add" || s2.Sel.Name == "AddMany") {
+									removes = true
 								}
+								if id2, ok := c2.Fun.(*ast.Ident); ok && id2.Name == "append" {
+									removes = true
+								}
+							}
+							return true
+						})
+						if removes {
+							if m < 0 {
+								polarity = append(polarity, "remove-if-not-contained")
+							} else {
+								polarity = append(polarity, "remove-if-contained")
+							}
+							if top {
 								pos = x.Pos()
 							}
 						}
 					}
-				}
-			case *ast.CallExpr:
-				if sel, ok := x.Fun.(*ast.SelectorExpr); ok {
-					if sel.Sel.Name == "Each" {
-						if id, ok := ast.Unparen(sel.X).(*ast.Ident); ok && info.Uses[id] == operand {
-							// iterating the operand: what does the callback do?
-							for _, a := range x.Args {
-								if fl, ok := a.(*ast.FuncLit); ok {
-									ast.Inspect(fl.Body, func(m ast.Node) bool {
-										if c2, ok := m.(*ast.CallExpr); ok {
-											if s2, ok := c2.Fun.(*ast.SelectorExpr); ok && s2.Sel.Name == "Add" {
-												if id2, ok := ast.Unparen(s2.X).(*ast.Ident); ok && info.Uses[id2] == recv {
-													addsEach = true
+				case *ast.CallExpr:
+					if sel, ok := x.Fun.(*ast.SelectorExpr); ok {
+						if sel.Sel.Name == "Each" {
+							if id, ok := ast.Unparen(sel.X).(*ast.Ident); ok && info.Uses[id] == operand {
+								// iterating the operand: what does the callback do?
+								for _, a := range x.Args {
+									if fl, ok := a.(*ast.FuncLit); ok {
+										ast.Inspect(fl.Body, func(m ast.Node) bool {
+											if c2, ok := m.(*ast.CallExpr); ok {
+												if s2, ok := c2.Fun.(*ast.SelectorExpr); ok && s2.Sel.Name == "Add" {
+													if id2, ok := ast.Unparen(s2.X).(*ast.Ident); ok && info.Uses[id2] == recv {
+														addsEach = true
+													}
 												}
 											}
-										}
-										return true
-									})
+											return true
+										})
+									}
+								}
+							}
+						}
+						if sel.Sel.Name == "Xor" {
+							nativeXor = true
+						}
+						// a helper method called on the receiver with the operand among its arguments
+						if id, ok := ast.Unparen(sel.X).(*ast.Ident); ok && info.Uses[id] == recv && depth < 2 {
+							if hd := methods[sel.Sel.Name]; hd != nil && hd.Body != nil && hd.Type.Params != nil {
+								var params []types.Object
+								for _, pl := range hd.Type.Params.List {
+									for _, nm := range pl.Names {
+										params = append(params, info.Defs[nm])
+									}
+								}
+								var innerOperand types.Object
+								innerConsts := map[types.Object]bool{}
+								for i, a := range x.Args {
+									if i >= len(params) {
+										break
+									}
+									if aid, ok := ast.Unparen(a).(*ast.Ident); ok && info.Uses[aid] == operand {
+										innerOperand = params[i]
+									} else if b, ok := boolConst(a); ok {
+										innerConsts[params[i]] = b
+									}
+								}
+								if innerOperand != nil {
+									var innerRecv types.Object
+									if hd.Recv != nil && len(hd.Recv.List) == 1 && len(hd.Recv.List[0].Names) == 1 {
+										innerRecv = info.Defs[hd.Recv.List[0].Names[0]]
+									}
+									scan(hd.Body.List, innerOperand, innerRecv, innerConsts, depth+1, false)
 								}
 							}
 						}
 					}
-					if sel.Sel.Name == "Xor" {
-						nativeXor = true
-					}
 				}
-			}
-			return true
-		})
+				return true
+			})
+		}
 	}
+	scan(br.Body, br.Operand, recv, map[types.Object]bool{}, 0, true)
 	sort.Strings(polarity)
 	switch {
 	case len(polarity) == 1:
